@@ -880,7 +880,16 @@ fn run_dyn(ty: &Ty, val: &Val, ctx: &mut Ctx) -> String {
         Val::Null => serialize_any(&None::<CqlValue>, &ct, ctx),
         Val::Unset => serialize_any(&Unset, &ct, ctx),
         v => match to_cql(v) {
-            Some(c) => serialize_any(&c, &ct, ctx),
+            Some(c) => {
+                let res = serialize_any(&c, &ct, ctx);
+                // model-independent acceptance rule (written from the docs, shared with C17): a value that
+                // does not fit the column type (unknown UDT field, over-long tuple, wrong vector length,
+                // element of the wrong type, ...) must be refused, never partially bound
+                if res.is_ok() && !crate::c17::dyn_fits(&c, ty) {
+                    ctx.fail(format!("dyn-mismatch-accepted: a CqlValue that does not fit the column type was serialized ({})", case_brief(ty, val)));
+                }
+                res
+            }
             None => return "bad-case".to_owned(),
         },
     };
@@ -909,6 +918,12 @@ fn run_dyn(ty: &Ty, val: &Val, ctx: &mut Ctx) -> String {
         }
     }
     format!("{} -> {}", hex(&cell), show_dec(&dec))
+}
+
+fn case_brief(ty: &Ty, val: &Val) -> String {
+    let mut s = format!("{:?} <- {:?}", ty, val);
+    s.truncate(200);
+    s
 }
 
 pub fn tag(d: Dom) -> String {
